@@ -308,6 +308,9 @@ def parse_header(source: BinaryIO) -> Tuple[OFXHeaderType, str]:
             rawheader += source.readline().decode("latin_1")
 
         header, header_end_offset = OFXHeaderV1.parse(rawheader)
+        if header_end_offset > len(line):
+            # Don't count the "\n" inserted after the first line above
+            header_end_offset -= 1
 
         #  Input source stream position should have advanced to the beginning of
         #  the OFX body tag soup, which is where subsequent calls
